@@ -269,9 +269,92 @@ def large_windows(rep):
                         judge(window, sw, ch, None, thr, buf, "%s of %d samples" % (kind, n))
 
 
+NWIN = [1]  # windows judged by each of the two threads (thorough: 2)
+
+
+def work_shared_validator(task):
+    """One validator object judged from two threads at once (the same object handed to two pipelines): every schedule
+    with at most `bound` preemptions at line granularity inside util.py / signal.py; each thread gets the verdicts its
+    own windows deserve."""
+    sw, ch, sel, bound = task
+    from . import sched
+    from auditok import workers as w
+
+    sched.install()
+    AEV = lib()["AEV"]
+    loud = encode([tuple([3000 + 7 * c for c in range(ch)])] * 4, sw) if sw > 1 else encode([tuple([100] * ch)] * 4, sw)
+    quiet = encode([tuple([1] * ch)] * 4, sw)
+    want = (bool(AEV(50, sw, ch, use_channel=sel).is_valid(loud)), bool(AEV(50, sw, ch, use_channel=sel).is_valid(quiet)))
+
+    class Job(w.Worker):
+        def __init__(self, v, windows):
+            self.v, self.windows, self.res = v, windows, None
+            super().__init__()
+
+        def _process_message(self, message):
+            pass
+
+        def run(self):
+            self.res = [bool(self.v.is_valid(x)) for x in self.windows]
+
+    class Ctx:
+        pass
+
+    def make():
+        ctx = Ctx()
+        v = AEV(50, sw, ch, use_channel=sel)
+        ctx.a, ctx.b = Job(v, [loud] * NWIN[0]), Job(v, [quiet] * NWIN[0])
+
+        def main():
+            ctx.a.start()
+            ctx.b.start()
+            ctx.a.join()
+            ctx.b.join()
+
+        return main, ctx
+
+    def check(ex, ctx):
+        if ex.outcome != "done":
+            return "%s: the two judging threads never end" % ex.outcome
+        for t in ex.th:
+            if t.crash is not None:
+                return "a judging thread died with %r" % (t.crash,)
+        if ctx.a.res != [want[0]] * NWIN[0] or ctx.b.res != [want[1]] * NWIN[0]:
+            return ("one validator used by two threads: the thread judging loud windows got %r, the one judging quiet windows %r; "
+                    "judged alone they are %r and %r" % (ctx.a.res, ctx.b.res, want[0], want[1]))
+        return None
+
+    old = sched.TRACE_FILES[0]
+    sched.TRACE_FILES[0] = ("auditok/util.py", "auditok/signal.py")
+    try:
+        st = sched.explore(make, check, line_mode=True, preemption_bound=bound, max_seconds=60)
+    finally:
+        sched.TRACE_FILES[0] = old
+    viol = []
+    for trace, msg, labels in st.violations[:1]:
+        viol.append(("shared-validator sw=%d ch=%d sel=%r schedule=%s" % (sw, ch, sel, ".".join(map(str, trace))), msg,
+                     {"kind": "sharedval", "sw": sw, "ch": ch, "sel": sel, "bound": bound}))
+    cov = {"evaluations": st.executions, "shared_validator_schedules": st.executions, "distinct_nontrivial": st.executions}
+    if st.cap_hit:
+        cov["caps_hit"] = ["shared validator sw=%d ch=%d: %s" % (sw, ch, st.cap_hit)]
+        cov["exhaustive"] = False
+    return {"cov": cov, "viol": viol}
+
+
 def work_through_split(sw):
     rep = common.Report("C07", "quick", "")
-    through_split(rep, (sw,))
+    if isinstance(sw, tuple):
+        # the caller's numeric error policy is part of the environment: floating-point errors raise, warnings are errors
+        import warnings
+
+        import numpy as np
+
+        with np.errstate(all="raise"):
+            with warnings.catch_warnings():
+                warnings.simplefilter("error")
+                through_split(rep, (sw[1],))
+    else:
+        through_split(rep, (sw,))
     cov = {k: rep.cov[k] for k in ("evaluations", "distinct_nontrivial", "ambiguous_skipped", "through_split") if k in rep.cov}
     return {"cov": cov, "viol": rep.violations, "nviol": rep.nviol}
 
@@ -279,6 +362,8 @@ def work_through_split(sw):
 def _dispatch(task):
     if task[0] == "ts":
         return work_through_split(task[1])
+    if task[0] == "sv":
+        return work_shared_validator(task[1])
     return work(task)
 
 
@@ -361,13 +446,14 @@ def run(prop, tier):
                 ns = max(1, min(16, size // 1500))
                 for s in range(ns):
                     tasks.append((sw, ch, n, s, ns, quick))
+    NWIN[0] = 1 if quick else 2
     rep.cov["rule"] = ("one evaluation = one is_valid() call (window, threshold, selection) compared with the exact decision, or "
                        "one constructor accept/reject decision; non-trivial when the window is expected active; windows are "
                        "all tuples over the per-width alphabet (full alphabet for <=3 values per window, reduced beyond)")
     rep.cov["bounds"] = {"widths": [1, 2, 4], "channels": [1, 2, 3], "window_samples": "1..3" if quick else "1..4",
                          "thresholds": (QUICK_THR if quick else FIXED_THR) + ["exact energy", "exact energy +-1e-6"]}
     large_windows(rep)
-    tasks = [("ts", sw_) for sw_ in (1, 2, 4)] + tasks
+    tasks = [("ts", sw_) for sw_ in (1, 2, 4)] + [("ts", ("strict", 2))] + [("sv", (sw_, ch_, sel_, 2)) for (sw_, ch_, sel_) in ((2, 1, None), (2, 2, None), (2, 2, "mix"), (1, 2, 1))] + tasks
     for part in common.pmap(_dispatch, tasks):
         rep.merge(part)
     rep.cov["states"] = rep.cov.get("windows", 0)
@@ -381,6 +467,9 @@ def run(prop, tier):
 
 def replay(case):
     AEV = lib()["AEV"]
+    if case["kind"] == "sharedval":
+        part = work_shared_validator((case["sw"], case["ch"], case["sel"], case["bound"]))
+        return part["viol"][0][1] if part["viol"] else None
     if case["kind"] == "split_validator":
         rep = common.Report("C07", "quick", "")
         through_split(rep)
